@@ -111,16 +111,14 @@ Proof.
 Qed.
 
 (* ------------------------------------------------------------------ no disclosure in direct mode *)
-(* READ and RENUM are the two known findings K16a / K16b (no guard in the code, see below) *)
-Definition excluded (o : op) : bool := match o with ORead | ORenum => true | _ => false end.
-
+(* FULL statement: whatever is typed at the prompt while the flag is set, no plain program text is exposed;
+   the only observation at all is the cipher text written by SAVE ,P *)
 Lemma no_plain s o :
-  protected s = true -> run_mode s = false -> excluded o = false ->
+  protected s = true -> run_mode s = false ->
   ob (step s o) = NoObs \/ (o = OSave SP /\ ob (step s o) = cipher (prog s)).
 Proof.
-  intros Hp Hr Hx.
+  intros Hp Hr.
   destruct o as [ | |r| |m| | | | | |v| | | |v| | | |r|em|hl|hl|f|f|f| |rs| | | | ];
-    try discriminate Hx;
     try destruct m; try destruct f; try destruct em; try destruct hl;
     destruct s as [p a r0 pr se t]; cbn in Hp, Hr; subst p r0;
     open_step; split_ifs; auto.
@@ -131,7 +129,7 @@ Definition must_fail (s : state) (o : op) : bool :=
   match o with
   | OList | OLlist | OSave SA | OSave SB | OPeekCode | OPeekOther | OPeekFlag | OBsaveCode | OBsaveOther
   | OPokeFlag _ | OPokeCode | OPokeOther | OBloadMissing | OBloadFlag _ | OBloadCode | OBloadOther
-  | OStoreNew | OStoreDel _ | OAutoLine false | OMerge true | OChainMerge _ => true
+  | OStoreNew | OStoreDel _ | OAutoLine false | OMerge true | OChainMerge _ | ORead | ORenum => true
   | OEdit r => memz r (prog s)
   | OEditPrompt => memz 1 (prog s)
   | _ => false
@@ -159,10 +157,10 @@ Theorem trace_no_disclosure : forall es s e,
   forallb (fun e => negb (self_unprotect e)) es = true ->
   let s' := run_events s es in
   secret s' = true ->
-  forall o, e = Direct o -> excluded o = false ->
+  forall o, e = Direct o ->
   match ob (estep s' e) with Plain _ => False | _ => True end.
 Proof.
-  intros es s e Hi Ha Hall s' Hs o -> Hx.
+  intros es s e Hi Ha Hall s' Hs o ->.
   assert (Hi' : inv s') by (apply flag_invariant; assumption).
   assert (Ha' : allow_protect s' = true).
   { subst s'. clear Hi Hall Hs Hi'. revert s Ha. induction es as [|e es IH]; intros s Ha; cbn; [assumption|].
@@ -173,12 +171,12 @@ Proof.
   destruct (Hi' Ha' Hs) as [Hp _].
   cbn [estep].
   assert (Hp' : protected (set_run s' false) = true) by (destruct s'; exact Hp).
-  destruct (no_plain (set_run s' false) o Hp' eq_refl Hx) as [H|[_ H]].
+  destruct (no_plain (set_run s' false) o Hp' eq_refl) as [H|[_ H]].
   - rewrite H. exact I.
   - rewrite H. unfold cipher. destruct (prog (set_run s' false)); exact I.
 Qed.
 
-(* ------------------------------------------------------------------ known findings, tied to the table *)
+(* ------------------------------------------------------------------ sanity: what the READ / RENUM guards buy (D16a, D16b) *)
 Lemma read_discloses_if_unguarded : g_read = GNone ->
   exists s, protected s = true /\ run_mode s = false /\ secret s = true /\ inv s /\
             ob (step s ORead) = Plain [2].
